@@ -255,7 +255,7 @@ type Parser struct {
 	Rules        []*Rule
 	Tables       *lalr.Tables
 	Actions      []SemanticAction
-	UsedFlags    []string
+	UsedFlags    []string // all node flags passed to the listener, including the flags of injected tokens
 	Types        *syntax.Types
 	IsRecovering bool
 	ErrorSymbol  int
